@@ -241,10 +241,30 @@ func runC11(c *Ctx) {
 	// the search routine's parameters by role, whether it is a method or a plain function: the digest is its []byte
 	// parameter, the start nonce its uint64, the required zeros its uint
 	PD, PS, PT := searchParam(search, "[]byte"), searchParam(search, "uint64"), searchParam(search, "uint")
+	// the lane test reports "none" by an index >= W, or returns (index, found) with found = index < W
+	laneVal, hitPat := "call<*>(_, _, "+PT+")", "bin<<>(call<*>(_, _, "+PT+"), "+WS+")"
 	for _, ce := range sb.CondEdges() {
 		if bd, ok := ana.Match("bin<<>(call<*>($l, $h, "+PT+"), "+WS+")", ce.Lit); ok {
 			_ = bd
 			lane = calleeOf(ce.Lit.Arg(0))
+		}
+		if _, ok := ana.Match("ext#1(call<*>($l, $h, "+PT+"))", ce.Lit); ok && ce.Taken && lane == nil {
+			if h := calleeOf(ce.Lit); h != nil && h.Blocks != nil {
+				hb := ana.NewBuilder(c.P, h)
+				var rets []ana.Exit
+				for _, e := range ana.Exits(h) {
+					if !e.Panic {
+						rets = append(rets, e)
+					}
+				}
+				if len(rets) == 1 && len(rets[0].Results) == 2 {
+					idxT := hb.Of(rets[0].Results[0], rets[0].Instr)
+					if matches("bin<<>("+termPat(idxT)+", "+WS+")", hb.Of(rets[0].Results[1], rets[0].Instr)) {
+						lane = h
+						laneVal, hitPat = "ext#0(call<*>(_, _, "+PT+"))", "ext#1(call<*>(_, _, "+PT+"))"
+					}
+				}
+			}
 		}
 	}
 	if lane == nil {
@@ -283,8 +303,8 @@ func runC11(c *Ctx) {
 		et := sb.Of(e.Results[1], e.Instr)
 		if et.Is("nil") {
 			vt := sb.Of(e.Results[0], e.Instr)
-			_, ok := ana.Match("bin<+>(ind<+"+WS+">("+PS+"), conv<uint64>(call<*>(_, _, "+PT+")))", vt)
-			hit := plainEdges(edgesMatching(sb, "bin<<>(call<*>(_, _, "+PT+"), "+WS+")"))
+			_, ok := ana.Match("bin<+>(ind<+"+WS+">("+PS+"), conv<uint64>("+laneVal+"))", vt)
+			hit := plainEdges(edgesMatching(sb, "raw:"+hitPat))
 			r.Check(ok && exitMustPass(search, e, hit), "C11.nonce-layout.returned-nonce", c.ipos(e.Instr), "returned nonce = batch base (start + 64·k) + lane index, only when the lane test found a lane < W: %s", short(vt.String(), 160))
 		}
 	}
